@@ -572,6 +572,18 @@ def one_case(ctx, rng, idx, out):
                             [obs, obs, _norm_opcode_payload(pv_canon(rr["result"]))], dict(case, corr="delta-model")))
                 except Exception:
                     ctx.count("corr:delta-model-outside-universe")
+            elif gen_i == 0 and kw.get("ignore_order") and "iterable_compare_func" not in kw:
+                # ignore_order: the payload with its index maps as the ignore-order application model (Delta/DeltaIO.v) reads it
+                try:
+                    from harness import deltacommon as DC
+                    obs = DC.delta_io_obs(rr["result"])
+                    if not any(e and e[0] == "UNEXPECTED-CATEGORY" for e in obs[0]):
+                        b_ = "true" if bid else "false"
+                        out["dlt"].append(("sx_delta_io_all default_world %s %s" % (b_, prog),
+                            [obs, obs, _norm_opcode_payload(pv_canon(rr["result"]))], dict(case, corr="delta-io-model")))
+                        ctx.count("corr:ignore-order payload read as delta_io" + (" (with index maps)" if obs[1] else " (no index map)"))
+                except Exception:
+                    ctx.count("corr:delta-io-model-outside-universe")
             shared = _shares_mutable(rr["result"])
             ctx.count("dump:with-shared-mutable-container" if shared else "dump:no-shared-mutable-container")
             # the payload as THIS dump wrote it (set iteration order is that of the dumped object)
@@ -664,6 +676,15 @@ def one_case(ctx, rng, idx, out):
                 nt = _nonetype_only(payload, dj2.diff)
                 ctx.fail(dict(jcase, stage="payload", loaded=repr(dj2.diff), nonetype_only=nt),
                          "the JSON round trip changes the payload")
+                if nt and pcanon is not None and "_iterable_opcodes" not in payload:
+                    # the exact characterisation of the finding (C14_json_nonetype_exact): the payload is in the extended
+                    # fragment, has a NoneType type entry, and what came back is jimg of it
+                    try:
+                        out["json"].append(("SL [sx_bool (json_okN %s); sx_bool (has_nonetype %s); sx_pv (jimg %s)]" % (pcoq, pcoq, pcoq),
+                                            [True, True, pv_canon(dj2.diff)], dict(case, corr="json-nonetype-exact")))
+                        ctx.count("corr:json NoneType image (jimg) against the reloaded payload")
+                    except Unsupported:
+                        pass
             for bi, base in enumerate(bases):
                 want = wants[bi]
                 got = apply_delta(base, Delta(text, deserializer=json_loads, serializer=json_dumps, bidirectional=bid, always_include_values=aiv))
@@ -781,14 +802,28 @@ def _json_model_domain(p):
 
 
 def _nonetype_only(a, b):
-    """the two payloads differ only in old_type/new_type being NoneType vs None"""
-    def norm(x):
+    """b (the JSON-reloaded payload) is exactly what the finding C14-JSON-NONETYPE predicts for a (the payload
+    that should have come back): a has a NoneType at old_type / new_type of a dict holding both keys, and b is a
+    with exactly those entries replaced by the value None - nothing else differs, b itself is not normalised
+    (the model's JsonNoneProofs.jimg; C14_json_nonetype_exact)"""
+    seen = [False]
+
+    def jimg(x):
         if isinstance(x, dict):
-            return {k: (None if k in ("old_type", "new_type") and v is type(None) else norm(v)) for k, v in x.items()}
+            both = "old_type" in x and "new_type" in x
+            out = {}
+            for k, v in x.items():
+                if both and k in ("old_type", "new_type") and v is type(None):
+                    seen[0] = True
+                    out[k] = None
+                else:
+                    out[k] = jimg(v)
+            return out
         if isinstance(x, list):
-            return [norm(y) for y in x]
+            return [jimg(y) for y in x]
         return x
-    return typed_payload_eq(norm(a), norm(b))
+    img = jimg(a)
+    return seen[0] and typed_payload_eq(img, b)
 
 
 # ---------------------------------------------------------------------------
@@ -1288,12 +1323,12 @@ def run(ctx):
         one_case(ctx, ctx.rng, i, out)
     exotic_stream(ctx)
     out["json"] += fixed_witnesses(ctx)
-    hdr = "From DD Require Import Base.PyStr Base.Value Pickle.Vm Pickle.Codec Pickle.Bytes Pickle.PickleShow.\nLocal Open Scope Z_scope."
+    hdr = "From DD Require Import Base.PyStr Base.Value Pickle.Vm Pickle.Codec Pickle.Bytes Pickle.PickleShow Pickle.JsonProofs Pickle.JsonNoneProofs.\nLocal Open Scope Z_scope."
     ctx.coq_cases("c14_vm", hdr, out["vm"], shard=60, label="real dumps on the model VM")
     ctx.coq_cases("c14_json", hdr, out["json"], shard=120, label="json value + json round trip")
     accepts_part(ctx, out["acc"])
     from harness import deltacommon as DC
-    ctx.coq_cases("c14_delta", DC.HDR[:-1] + " Pickle.Vm Pickle.Codec Pickle.Bytes Pickle.DeltaCodec Pickle.DeltaCodecShow.\nLocal Open Scope Z_scope.",
+    ctx.coq_cases("c14_delta", DC.HDR[:-1] + " Pickle.Vm Pickle.Codec Pickle.Bytes Pickle.DeltaCodec Pickle.DeltaIOCodec Pickle.DeltaCodecShow.\nLocal Open Scope Z_scope.",
                   out["dlt"], shard=60, label="decoded dump read as a delta of the application model")
     ctx.coq_cases("c14_jsonsets", DC.HDR[:-1] + " Pickle.Vm Pickle.Codec Pickle.DeltaCodec Pickle.DeltaCodecShow.\nLocal Open Scope Z_scope.",
                   out["jset"], shard=60, label="JSON-persisted deltas with set items: payload relation and delta")
